@@ -24,6 +24,7 @@ fn main() {
         "w_chain" => vh::w_chain::main(rest),
         "w_live" => vh::w_live::main(rest),
         "w_freeze" => vh::w_freeze::main(rest),
+        "w_step" => vh::w_step::main(rest),
         "w_halflock" => vh::w_halflock::main(rest),
         _ => {
             eprintln!("unknown workload {:?}", w);
